@@ -150,7 +150,7 @@ Proof. intros []; reflexivity. Qed.
 
 Theorem spec_holds_model : forall dfault hfault b db0 free df hf,
   let s := run_op dfault hfault [b] db0 in
-  spec_holds (mk_case free df hf (rev (s_out s)) (last (s_err s) XNil) false
+  spec_holds (mk_case free df hf false (rev (s_out s)) (last (s_err s) XNil) false
                       (match_of s db0 [b]) 0%Z (s_open s)) = true.
 Proof.
   intros dfault hfault b db0 free df hf. cbv zeta.
